@@ -84,6 +84,13 @@ class IndepNormalPrior:
         g = -(x - self.m) / self.s ** 2
         return g[0] if (nd == 0 or (nd == 1 and self.dim > 1)) else g
 
+    def rvs(self, size=None, random_state=None):
+        rs = random_state or np.random
+        n = 1 if size is None else int(np.prod(size))
+        x = self.m + self.s * rs.standard_normal((n, self.dim))
+        x = x.reshape(n) if self.dim == 1 else x
+        return x[0] if size is None else x
+
 
 def grid(dim, dense):
     pts = []
@@ -122,7 +129,8 @@ def run_gp(case):
     scale = float(gp._gp.kern.rbf.variance[0] + gp._gp.kern.bias.variance[0]) if hasattr(gp._gp.kern, 'rbf') else 1.0
     pts = grid(dim, case.get('dense', False))
     for thr_name in case['thresholds']:
-        thr = {'min': float(np.min(y)), 'median': float(np.median(y)), 'explicit': 1.234}[thr_name]
+        thr = {'min': float(np.min(y)), 'median': float(np.median(y)), 'explicit': 1.234, 'zero': 0.0, 'int-zero': 0,
+               'negative': -0.4}[thr_name]
         post = BolfiPosterior(gp, threshold=thr, prior=prior)
         # (i) value, inside/outside, all shapes
         for x, inside in pts:
@@ -290,7 +298,8 @@ def run(ctx):
             for fn in fns:
                 for hy in hypers:
                     cases.append({'kind': 'gp', 'dim': dim, 'n': n, 'fn': fn, 'hyper': hy,
-                                  'thresholds': ['min', 'explicit'] if q else ['min', 'median', 'explicit'],
+                                  'thresholds': ['min', 'explicit', 'zero'] if q else
+                                  ['min', 'median', 'explicit', 'zero', 'int-zero', 'negative'],
                                   'dense': not q})
     ctx.run_cases(run_gp, cases, 'fitted-gps', chunksize=1, sample_every=max(1, len(cases) // 4))
     # histories
